@@ -112,6 +112,10 @@ impl Check for SimCheck {
     }
     fn parts(&self, tier: Tier) -> Vec<Part> {
         let mut v = vec![Part { name: "hist", kind: PartKind::Random { cases: tier.pick(self.quick, self.thorough), main: 120, ops: 7, oplen: 40, sched: 60 } }];
+        if ["C01", "C04", "C06", "C19"].contains(&self.id) {
+            // a few large graphs (up to 48 steps)
+            v.push(Part { name: "large", kind: PartKind::Random { cases: tier.pick(3000, 40_000), main: 700, ops: 3, oplen: 60, sched: 300 } });
+        }
         if ["C01", "C04", "C05", "C06"].contains(&self.id) {
             v.push(Part { name: "schedules", kind: PartKind::Random { cases: tier.pick(400, 6000), main: 80, ops: 2, oplen: 40, sched: 30 } });
         }
@@ -162,6 +166,16 @@ impl Check for SimCheck {
             let mut classes: Vec<String> = vec![if cut { "schedule-enumeration-cut".to_string() } else { "schedule-enumeration-complete".to_string() }];
             classes.extend(stats.classes.iter().filter(|c| !c.starts_with("edit:")).cloned());
             return CaseOut { viols, nontrivial: !fps.is_empty(), fp: fps.first().copied().unwrap_or(0), extra_fps: fps, classes, desc, evals: runs, ..Default::default() };
+        }
+        if _part == "large" {
+            let prof = Profile { gen: GenOpts { max_steps: 48, max_sources: 6, ..self.prof.gen.clone() }, ..self.prof.clone() };
+            let out = run_history(case, &prof, &env.dir, self.id, &env.known);
+            let nontrivial = (self.nontrivial)(&out.stats);
+            let mut classes: Vec<String> = vec!["large-graph".into()];
+            if nontrivial {
+                classes.push("nontrivial".into());
+            }
+            return CaseOut { viols: out.viols, nontrivial, fp: fnv_str(&out.fp_text), classes, desc: serde_json::Value::Null, evals: out.stats.invocations.max(1), ..Default::default() };
         }
         let out = if _part == "cycles" { run_cycle_case(case, &env.dir) } else { run_history(case, &self.prof, &env.dir, self.id, &env.known) };
         let nontrivial = (self.nontrivial)(&out.stats);
